@@ -79,5 +79,12 @@ GenDRawInit ==
                  frames |-> <<IF enc = "gzip" THEN LCMsg(20, 40, 9) ELSE LMsg(40, 9)>>, cut |-> 2000000000, tail |-> "eof",
                  trailers |-> "none", maxlimit |-> TRUE])
   /\ script = <<>> /\ ew = FALSE
-GenDSpec == (GenDInit \/ GenDRawInit) /\ [][FALSE]_gvars
+\* the error body of a non-200 unary Connect response: a bomb under a limit
+GenDErrBodyInit ==
+  /\ \E st \in {500, 404} :
+       InitWith([proto |-> "connect", side |-> "client", shape |-> "unary", raw |-> TRUE, reuse |-> FALSE, limit |-> 131072,
+                 enc |-> "gzip", frames |-> <<BombF>>, cut |-> 2000000000, tail |-> "eof", trailers |-> "none",
+                 bomb |-> TRUE, status |-> st])
+  /\ script = <<>> /\ ew = FALSE
+GenDSpec == (GenDInit \/ GenDRawInit \/ GenDErrBodyInit) /\ [][FALSE]_gvars
 =============================================================================
